@@ -205,16 +205,16 @@ func c09Run(c c09Case, ce *c09Env, rec *vh.Recorder) error {
 		s.Add("waitn:1")
 	case "busy-child":
 		s.Add("fork{")
-		s.Add("spin:700")
+		s.Add("spin:400")
 		s.Add("exit:0")
 		s.Add("}")
-		s.Add("sleep:1500") // the child's end is an event of the run while the main process is still there
+		s.Add("sleep:800") // the child's end is an event of the run while the main process is still there
 	}
 	var lim runner.Limit
 	if c.Children == "busy-child" && c.Runner == "ptrace" {
 		// (only the ptrace runner: when the pid-namespace init of the namespace runner exits, the kernel reaps its children
 		// for it and their CPU time becomes part of the usage the runner measures - Time Limit Exceeded is then right)
-		lim = runner.Limit{TimeLimit: 300 * time.Millisecond, MemoryLimit: 1 << 30}
+		lim = runner.Limit{TimeLimit: 150 * time.Millisecond, MemoryLimit: 1 << 30}
 	}
 	var filter seccomp.Filter
 	switch c.Ending {
@@ -362,7 +362,7 @@ func c09Run(c c09Case, ce *c09Env, rec *vh.Recorder) error {
 	return nil
 }
 
-const c09Rule = "case = runner in {ptrace, namespace(unshare), container sync-before, container sync-after} x ending in {exit n (0..255), self-sent signal with default disposition (every terminating signal 1..64), real fault (SEGV/FPE/ILL/BUS/TRAP), SIGSYS from a kill-default filter, SIGKILL sent from the host} x children behaviour in {none, child exits m first, child killed by a signal, child still running and ignoring signals at exit, child dies of SIGUSR1, an un-reaped child burns 700 ms CPU under a 300 ms runner time bound while the main process sleeps} x (container runners) 0..3 earlier calls on the same pooled environment in {callback refuses after exec, callback refuses before exec, cancelled run, program that leaves 4 or 150 orphans}; oracle = README status table; " +
+const c09Rule = "case = runner in {ptrace, namespace(unshare), container sync-before, container sync-after} x ending in {exit n (0..255), self-sent signal with default disposition (every terminating signal 1..64), real fault (SEGV/FPE/ILL/BUS/TRAP), SIGSYS from a kill-default filter, SIGKILL sent from the host} x children behaviour in {none, child exits m first, child killed by a signal, child still running and ignoring signals at exit, child dies of SIGUSR1, an un-reaped child burns 400 ms CPU under a 150 ms runner time bound while the main process sleeps} x (container runners) 0..3 earlier calls on the same pooled environment in {callback refuses after exec, callback refuses before exec, cancelled run, program that leaves 4 or 150 orphans}; oracle = README status table; " +
 	"rows the kernel cannot produce (self-sent signals to a pid-namespace init; signals the container init leaves ignored) are counted as not-producible; non-trivial = non-zero exit, a signal, or children; the grid test enumerates runner x ending exhaustively (all 256 codes in the thorough tier)"
 
 func TestC09Grid(t *testing.T) {
@@ -412,7 +412,7 @@ func c09GenCase() func(rt *rapid.T) c09Case {
 	return func(rt *rapid.T) c09Case {
 		c := c09Case{Runner: rapid.SampledFrom(c09Runners).Draw(rt, "runner"),
 			Ending:   rapid.SampledFrom([]string{"exit", "exit", "raise", "raise", "fault", "sigsys", "hostkill"}).Draw(rt, "ending"),
-			Children: rapid.SampledFrom([]string{"none", "exits-first", "killed", "still-running", "child-raises-benign", "busy-child"}).Draw(rt, "children")}
+			Children: rapid.SampledFrom([]string{"none", "none", "exits-first", "exits-first", "killed", "killed", "still-running", "still-running", "child-raises-benign", "child-raises-benign", "busy-child"}).Draw(rt, "children")}
 		switch c.Ending {
 		case "exit":
 			c.N = rapid.IntRange(0, 255).Draw(rt, "code")
